@@ -1265,6 +1265,45 @@ def gen_floor_rework(rng, idx, big=False):
     return L
 
 
+def gen_floor_cyclechange(rng, idx, big=False):
+    """Cycle time changed under a held part: several feeders (so that somebody is refused meanwhile) into single-slot
+    devices and a sink whose cycle time is set to another value -- often to 0 -- or offset for one cycle WHILE a part
+    is held, and zero-cycle devices / sinks that get a positive one-shot offset (their next cycle is not instantaneous
+    although their cycle time reads 0 when it ends).  Whatever the cycle time reads at the end of a cycle, the slot
+    is free then and the refused upstreams have to be told."""
+    L = _hdr(rng, idx)
+    B = FloorBuilder(rng)
+    srcs = [B.dev('source', cyc=rng.choice([1, 2, 3, 4, 6]), budget=rng.choice(['inf', 'inf', '4', '8']), pval=0)
+            for _ in range(rng.choice([1, 2, 2, 3]))]
+    prev = srcs
+    mids = []
+    if rng.random() < 0.5:
+        for _ in range(rng.choice([1, 2, 2])):
+            mids.append(B.dev(rng.choice(['handler', 'processor']), up=','.join(map(str, rng.sample(prev, rng.randint(1, len(prev))))),
+                              cyc=rng.choice([0, 0, 2, 4, 8])))
+        for x in srcs:
+            if not any(str(x) in [t for t in B.L[m] if t.startswith('up=')][0][3:].split(',') for m in mids):
+                B.L[mids[0]] = [t if not t.startswith('up=') else t + f',{x}' for t in B.L[mids[0]]]
+        prev = mids
+    sink = B.dev('sink', up=','.join(map(str, prev)), cyc=rng.choice([0, 0, 0, 4, 8]), collect=rng.choice([0, 1]))
+    L += B.L
+    sched = []
+    for _ in range(rng.randint(2, 6)):
+        t = rng.randrange(1, 48)
+        d = rng.choice(mids + [sink, sink])
+        if rng.random() < 0.5:
+            sched.append((t, ['offset', str(d), str(rng.choice([2, 4, 8, 12, -2]))]))
+        else:
+            sched.append((t, ['setcycle', str(d), str(rng.choice([0, 0, 4, 8]))]))
+    _sched_ops(L, rng, sched)
+    L.append(['run', str(rng.choice([64, 96]))])
+    L.append(['end'])
+    return L
+
+
+FAMILIES['floork'] = gen_floor_cyclechange
+
+
 def gen_floor_nestbat(rng, idx, big=False):
     """corpus-only family (harness/corpus/floorn): nested groups whose batches cross group boundaries
     (known finding F14); nothing is generated"""
